@@ -227,6 +227,10 @@ ATTRS13 = {1: 0, 2: [(2, [64512, 65001]), (1, [100, 200])], 3: '10.0.0.9', 4: 50
            32: ['64512:1:2'], 14: {'afi_safi': (2, 1), 'nexthop': '2001:db8::1', 'nlri': ['2001:db8:1::/48']}}
 
 
+ATTRS_AS2 = {1: 0, 2: [(2, [64500, 23456, 23456]), (1, [64496, 64497])], 3: '10.0.0.9', 5: 200, 7: (23456, '10.0.0.1'),
+             17: [(2, [4200000000, 65536]), (1, [70000])], 18: (4200000000, '10.0.0.9'), 8: ['64512:100']}
+
+
 def task_perms(args):
     from yabgp.message.update import Update
     subsets = args
@@ -235,10 +239,14 @@ def task_perms(args):
     classes = set()
     for sub in subsets:
         base = None
+        # a subset tagged 'as2' is a 2-octet-AS session carrying AS4_PATH / AS4_AGGREGATOR (RFC 6793 transition attributes)
+        asn4 = not (sub and sub[0] == 'as2')
+        table = ATTRS13 if asn4 else ATTRS_AS2
+        sub = sub if asn4 else sub[1:]
         for perm in itertools.permutations(sub):
-            msg = {'attr': {c: ATTRS13[c] for c in sub}, 'nlri': ['192.0.2.0/24']}
-            data = upd.encode_update(msg, True, False, {'order': list(perm)})
-            st, got, steps = budget.run(300 + 60 * len(data), Update.parse, None, data[19:], True)
+            msg = {'attr': {c: table[c] for c in sub}, 'nlri': ['192.0.2.0/24']}
+            data = upd.encode_update(msg, asn4, False, {'order': list(perm)})
+            st, got, steps = budget.run(300 + 60 * len(data), Update.parse, None, data[19:], asn4)
             n += 1
             if st != 'ok' or got.get('sub_error'):
                 out.append(('C15|attribute-order|decoding failed for an order of %d attributes' % len(sub), {'order': perm, 'hex': data.hex()}))
@@ -426,6 +434,8 @@ def run(tier, seed):
     subs = [s for k in range(2, (5 if tier == 'thorough' else 4) + 1) for s in itertools.combinations(codes, k)]
     subs += [tuple(codes)]      # the full message: only a few orders (13! is out of reach): handled below
     small = [s for s in subs if len(s) <= 5]
+    c2 = sorted(ATTRS_AS2)
+    small += [('as2',) + s_ for k in range(2, 5) for s_ in itertools.combinations(c2, k) if set(s_) & {17, 18}]
     for i in range(0, len(small), 60):
         tasks.append(('perms', small[i:i + 60]))
     cu = corpus_updates()
@@ -452,7 +462,7 @@ def run(tier, seed):
         'rule': 'per list kind (%d kinds) a pool of well-formed element encodings covering every element width (reference encoder; for the '
                 'TLV kinds every registered type with its shortest and longest body that decodes alone); all ordered pairs (a, b), all '
                 'triples for pools <= 40 (thorough), a || unknown || b for the TLV kinds: D(a||b) must equal D(a) ++ D(b) (dict union for OPEN '
-                'capabilities); all orders of every <= %d-subset of a 13-attribute UPDATE plus rotations / reversal of the full one; all 24 orders of BGP-LS UPDATEs with MP_REACH (protocol A) + MP_UNREACH (protocol B) + attribute 29 for A, B in {1,2,3,6} x every link-state TLV of the pool. '
+                'capabilities); all orders of every <= %d-subset of a 13-attribute UPDATE (and, on a 2-octet-AS session, of every <= 4-subset of 8 attributes that contains AS4_PATH or AS4_AGGREGATOR) plus rotations / reversal of the full one; all 24 orders of BGP-LS UPDATEs with MP_REACH (protocol A) + MP_UNREACH (protocol B) + attribute 29 for A, B in {1,2,3,6} x every link-state TLV of the pool. '
                 'distinct_nontrivial = distinct (kind, element widths)' % (len(sizes), 5 if tier == 'thorough' else 4),
         'samples': [{'kind': k, 'a': report.pick(ep[k], seed, 1)[0].hex(), 'b': report.pick(ep[k], seed + 1, 1)[0].hex()} for k in report.pick(sorted(sizes), seed, 3)],
         'pool_sizes': sizes, 'unit_test_updates_permuted': len(cu), 'bgpls_mix_cases': len(mix), 'exhaustive': True, 'violation_keys': summary,
